@@ -2,6 +2,7 @@ package main
 
 import (
 	"fmt"
+	"strings"
 	"sync/atomic"
 	"time"
 
@@ -26,12 +27,20 @@ var updateSeq int64
 
 // fsmOp submits one FSM task to n and records call and return at the API boundary.
 func (c *Cluster) fsmOp(client int, n *Node, op string) opResult {
+	return c.fsmOpPad(client, n, op, 0)
+}
+
+// fsmOpPad is fsmOp with update commands padded to about pad bytes.
+func (c *Cluster) fsmOpPad(client int, n *Node, op string, pad int) opResult {
 	oid := c.nextOp()
 	var t raft.FSMTask
 	call := &ev.Rec{K: "client-call", Cl: client, Op: op, OpID: oid}
 	switch op {
 	case "update":
 		id := fmt.Sprintf("c%d.%d.%d", c.cid, client, atomic.AddInt64(&updateSeq, 1))
+		if pad > len(id)+1 {
+			id += "~" + strings.Repeat("x", pad-len(id)-1)
+		}
 		call.Val = id
 		t = raft.UpdateFSM([]byte(id))
 	case "read":
